@@ -25,8 +25,10 @@ def _init_worker() -> None:
     os.environ["MYPY_CACHE_DIR"] = "/dev/null"
     os.environ["PYTHONDONTWRITEBYTECODE"] = "1"
     sys.dont_write_bytecode = True
-    if "/repo/src" not in sys.path:
-        sys.path.insert(0, "/repo/src")
+    from .driver import REPO_SRC
+
+    if REPO_SRC not in sys.path:
+        sys.path.insert(0, REPO_SRC)
     # heavy imports once per worker
     import mypy.build  # noqa: F401
 
